@@ -414,3 +414,9 @@ Definition v_get_stats_undef (arr : nd) (w : option nd) (nsig : option Q) (niter
 Definition gs_guard (arr : nd) (w : option nd) (nsig : option Q) (niter : option Z) (k : Z) : Z :=
   if (k =? skip)%Z then k else
   if existsb (fun b => b) (gs_undef_cols arr w nsig niter) then 3%Z else k.
+
+(* ================================================================ large inputs given by a formula *)
+(* inputs of more than 2^16 elements are not printed as literals: x_i = ((a*i + b) mod m) - off, i < n,
+   built by the same formula in the harness *)
+Definition mod_list (n : nat) (a b m off : Z) : list Q :=
+  map (fun i => inject_Z ((a * Z.of_nat i + b) mod m - off)) (seq 0 n).
